@@ -56,7 +56,14 @@ class WorkerRun:
             m = os.stat(self.out + ".cur").st_mtime
         except OSError:
             m = self.t0
-        if now - max(m, self.t0) > self.stall_s and not self.killed:
+        limit = self.stall_s
+        try:
+            # a machine that is busy with other work starves the workers: be patient
+            if os.getloadavg()[0] > 1.5 * (os.cpu_count() or 1):
+                limit *= 4
+        except OSError:
+            pass
+        if now - max(m, self.t0) > limit and not self.killed:
             self.killed = True
             try:
                 self.p.send_signal(signal.SIGQUIT)
